@@ -60,6 +60,11 @@ theorem seen_finish (c : Cfg) (s : St) (w : Nat) (approve : Bool) : (finish c s 
 
 theorem step_inv (s : St) (ev : Ev) (h : Inv s) : Inv (step Cfg.clean s ev) := by
   cases ev with
+  | drop =>
+    intro w
+    have ⟨h1, h2⟩ := h w
+    simp only [step, K, List.count_nil, Nat.zero_add] at h1 h2 ⊢
+    exact ⟨by omega, fun hns => by have := h2 hns; omega⟩
   | arrive w0 =>
     simp only [step]
     split
